@@ -99,6 +99,8 @@ def dtype_kind(dt):
     import numpy as np
     import pandas as pd
     from pandas.core.arrays.masked import BaseMaskedDtype
+    if type(dt).__name__ == "NumpyEADtype":      # dtype of Series.array for plain numpy-backed columns
+        dt = dt.numpy_dtype
     if isinstance(dt, pd.CategoricalDtype):
         return ("category", None, bool(dt.ordered), False)
     if isinstance(dt, BaseMaskedDtype):
